@@ -79,6 +79,8 @@ type Call struct {
 	Resource string // pods|persistentvolumeclaims|controllerrevisions|statefulsets|bstatefulsets
 	Sub      string // "" or "status"
 	Name     string
+	NS       string                // namespace of the request
+	Key      string                `json:"-"` // map key of the target (name, namespace-qualified outside the default namespace)
 	ID       string                // verb resource[/sub] name #n  (n-th occurrence in this reconcile)
 	Obj      runtime.Object        `json:"-"` // submitted object (create/update)
 	Patch    string                // patch body
@@ -415,12 +417,16 @@ func (w *World) react(action clienttesting.Action) (bool, runtime.Object, error)
 	default:
 		panic(HarnessError{fmt.Sprintf("unmodelled action %T", action)})
 	}
+	c.NS = action.GetNamespace()
+	c.Key = ObjKey(c.NS, c.Name)
 	base := c.Verb + " " + c.Resource
 	if c.Sub != "" {
 		base += "/" + c.Sub
 	}
 	if c.Name != "" {
-		base += " " + c.Name
+		base += " " + c.Key
+	} else if c.NS != NS && c.NS != "" {
+		base += " ns=" + c.NS
 	}
 	if c.Selector != "" {
 		base += " [" + c.Selector + "]"
@@ -433,7 +439,7 @@ func (w *World) react(action clienttesting.Action) (bool, runtime.Object, error)
 	fault := w.faults[c.ID]
 	w.mu.Unlock()
 	c.Fault = fault
-	c.Target = w.lookup(c.Resource, c.Name)
+	c.Target = w.lookup(c.Resource, c.Key)
 
 	switch fault {
 	case FCrashBefore:
@@ -442,16 +448,16 @@ func (w *World) react(action clienttesting.Action) (bool, runtime.Object, error)
 	case FErr500:
 		return w.finish(c, nil, apierrors.NewInternalError(fmt.Errorf("injected")))
 	case FConflict:
-		w.foreignTouch(c.Resource, c.Name)
+		w.foreignTouch(c.Resource, c.Key)
 	case FConflictFresh:
-		w.foreignTouch(c.Resource, c.Name)
+		w.foreignTouch(c.Resource, c.Key)
 		w.S.SyncCaches()
 		w.fillCaches()
 	case FGone:
-		w.foreignRemove(c.Resource, c.Name)
+		w.foreignRemove(c.Resource, c.Key)
 	case FExists:
 		if c.Verb == "create" {
-			w.apply(&Call{Verb: "create", Resource: c.Resource, Name: c.Name, Obj: c.Obj.DeepCopyObject()}, action)
+			w.apply(&Call{Verb: "create", Resource: c.Resource, Name: c.Name, Key: c.Key, NS: c.NS, Obj: c.Obj.DeepCopyObject()}, action)
 		}
 	}
 	obj, err := w.apply(c, action)
@@ -612,7 +618,7 @@ func (w *World) stamp(m metav1.Object) time.Time {
 }
 
 func (w *World) apply(c *Call, action clienttesting.Action) (runtime.Object, error) {
-	cur := w.lookup(c.Resource, c.Name)
+	cur := w.lookup(c.Resource, c.Key)
 	switch c.Verb {
 	case "get":
 		if cur == nil {
@@ -707,7 +713,7 @@ func (w *World) apply(c *Call, action clienttesting.Action) (runtime.Object, err
 		if p, ok := cur.(*v1.Pod); ok {
 			if p.Status.Phase == v1.PodFailed || p.Status.Phase == v1.PodSucceeded {
 				c.Deleted = true
-				w.remove(c.Resource, c.Name)
+				w.remove(c.Resource, c.Key)
 				return nil, nil
 			}
 			if p.DeletionTimestamp != nil {
@@ -720,7 +726,7 @@ func (w *World) apply(c *Call, action clienttesting.Action) (runtime.Object, err
 			return nil, nil
 		}
 		c.Deleted = true
-		w.remove(c.Resource, c.Name)
+		w.remove(c.Resource, c.Key)
 		return nil, nil
 	}
 	panic(HarnessError{"unmodelled verb " + c.Verb})
@@ -780,7 +786,7 @@ func (w *World) list(c *Call, a clienttesting.ListAction) (runtime.Object, error
 	case "controllerrevisions":
 		l := &appsv1.ControllerRevisionList{}
 		for _, k := range sortedKeys(w.S.API.Revs) {
-			if r := w.S.API.Revs[k]; sel.Matches(labels.Set(r.Labels)) {
+			if r := w.S.API.Revs[k]; sel.Matches(labels.Set(r.Labels)) && nsMatch(c.NS, r.Namespace) {
 				l.Items = append(l.Items, *r.DeepCopy())
 			}
 		}
@@ -788,7 +794,7 @@ func (w *World) list(c *Call, a clienttesting.ListAction) (runtime.Object, error
 	case "pods":
 		l := &v1.PodList{}
 		for _, k := range sortedKeys(w.S.API.Pods) {
-			if r := w.S.API.Pods[k]; sel.Matches(labels.Set(r.Labels)) {
+			if r := w.S.API.Pods[k]; sel.Matches(labels.Set(r.Labels)) && nsMatch(c.NS, r.Namespace) {
 				l.Items = append(l.Items, *r.DeepCopy())
 			}
 		}
@@ -796,11 +802,22 @@ func (w *World) list(c *Call, a clienttesting.ListAction) (runtime.Object, error
 	case "statefulsets":
 		l := &asv1.StatefulSetList{}
 		for _, k := range sortedKeys(w.S.API.Sets) {
-			if r := w.S.API.Sets[k]; sel.Matches(labels.Set(r.Labels)) {
+			if r := w.S.API.Sets[k]; sel.Matches(labels.Set(r.Labels)) && nsMatch(c.NS, r.Namespace) {
 				l.Items = append(l.Items, *r.DeepCopy())
 			}
 		}
 		return l, nil
 	}
 	panic(HarnessError{"unmodelled list on " + c.Resource})
+}
+
+// nsMatch: a namespaced request sees only objects of its namespace ("" = all namespaces).
+func nsMatch(reqNS, objNS string) bool {
+	if reqNS == "" {
+		return true
+	}
+	if objNS == "" {
+		objNS = NS
+	}
+	return reqNS == objNS
 }
